@@ -118,7 +118,8 @@ fn gather_elements(tier: Tier) -> Vec<Case> {
                     for idt in [Dt::I64, Dt::I32] {
                         for neg in [false, true] {
                             let ind = fill_index(idt, &is, ds[ax], 2, neg);
-                            let cls = format!("{}{}{}", axis_cls(axis), if is == *ds { "" } else { "; indices shape differs from data" }, if neg { "; negative indices" } else { "" });
+                            let off = (0..ds.len()).any(|d| d != ax && is[d] < ds[d]);
+                            let cls = format!("{}{}{}", axis_cls(axis), if off { "; indices smaller than data on a non-axis dimension" } else { "" }, if neg { "; negative indices" } else { "" });
                             out.push(Case::new("GatherElements", cls, vec![Some(data.clone()), Some(ind)]).attr_i("axis", axis));
                         }
                     }
@@ -246,18 +247,10 @@ fn scatter_elements(tier: Tier) -> Vec<Case> {
                                 continue;
                             }
                             let upd = if dt == Dt::Bool { fill_small(dt, &is, 3) } else { fill_table(dt, &is, &[7.0, 1.0, 2.0, 9.0, 4.0, 6.0, 8.0], 1, 1) };
-                            let cls = format!(
-                                "{}; reduction {}{}{}",
-                                match axis {
-                                    None => "axis default",
-                                    Some(a) => axis_cls(a),
-                                },
-                                reduction.unwrap_or("absent"),
-                                if dup { "; duplicate indices" } else { "" },
-                                if neg { "; negative indices" } else { "" }
-                            );
+                            let off_axis_smaller = (0..ds.len()).any(|d| d != ax && is[d] < ds[d]);
+                            let cls = if off_axis_smaller { "indices smaller than data on a non-axis dimension" } else { "indices match data on the non-axis dimensions" }.to_string();
                             for idt in [Dt::I64, Dt::I32] {
-                                let mut c = Case::new("ScatterElements", cls.clone(), vec![Some(data.clone()), Some(ind.clone().with_dt(idt)), Some(upd.clone())]);
+                                let mut c = Case::new("ScatterElements", cls.clone(), vec![Some(data.clone()), Some(ind.clone().with_dt(idt)), Some(upd.clone())]).vclass("");
                                 if let Some(a) = axis {
                                     c = c.attr_i("axis", a);
                                 }
@@ -319,36 +312,17 @@ fn scatter_nd(tier: Tier) -> Vec<Case> {
     out
 }
 
-fn slice_class(starts: &[i64], ends: &[i64], steps: Option<&[i64]>, axes: Option<&[i64]>, dims: &[usize]) -> String {
-    let big = |v: i64| v.abs() >= 1 << 30;
-    let mut parts = Vec::new();
-    match steps {
-        None => parts.push("steps absent".to_string()),
-        Some(s) => {
-            if s.iter().any(|v| *v < 0) {
-                parts.push(if s.iter().any(|v| *v < -1) { "negative step < -1".to_string() } else { "step -1".to_string() });
-            } else if s.iter().any(|v| *v > 1) {
-                parts.push("positive step > 1".to_string());
-            } else {
-                parts.push("step 1".to_string());
-            }
-        }
-    }
-    if starts.iter().chain(ends.iter()).any(|v| big(*v)) {
-        parts.push("INT_MAX/INT_MIN sentinel".to_string());
-    }
-    let _ = dims;
-    match axes {
-        None => parts.push("axes absent".to_string()),
-        Some(a) => {
-            if a.iter().any(|v| *v < 0) {
-                parts.push("negative axes".to_string());
-            } else {
-                parts.push("axes given".to_string());
-            }
-        }
-    }
-    parts.join("; ")
+fn slice_class(_starts: &[i64], _ends: &[i64], steps: Option<&[i64]>, axes: Option<&[i64]>, _dims: &[usize]) -> String {
+    let st = match steps {
+        None => "steps absent",
+        Some(s) if s.iter().all(|v| *v == 1) => "steps all 1",
+        Some(_) => "steps other than 1",
+    };
+    let ax = match axes {
+        None => "axes absent",
+        Some(_) => "axes given",
+    };
+    format!("{st}; {ax}")
 }
 
 fn slice(tier: Tier) -> Vec<Case> {
@@ -433,7 +407,7 @@ fn slice(tier: Tier) -> Vec<Case> {
                         }
                     }
                     // axes absent: only legal when the list is the leading axes in order
-                    if al.iter().enumerate().all(|(i, a)| *a == i) {
+                    if al.len() == r && al.iter().enumerate().all(|(i, a)| *a == i) {
                         let cls = slice_class(&st, &en, Some(&sp), None, ds);
                         out.push(Case::new("Slice", cls, vec![Some(data.clone()), Some(i64s(&st)), Some(i64s(&en)), None, Some(i64s(&sp))]));
                     }
@@ -580,10 +554,6 @@ fn split(tier: Tier) -> Vec<Case> {
                 let a = axis.unwrap_or(0);
                 let ax = if a < 0 { a + r } else { a } as usize;
                 let dim = ds[ax];
-                let acl = match axis {
-                    None => "axis default",
-                    Some(a) => axis_cls(a),
-                };
                 let with_axis = |mut c: Case| {
                     if let Some(a) = axis {
                         c = c.attr_i("axis", a);
@@ -593,15 +563,21 @@ fn split(tier: Tier) -> Vec<Case> {
                 // equal parts by output count (opset 11, 13)
                 for n in 1..=dim.min(4) {
                     if dim % n == 0 {
-                        out.push(with_axis(Case::new("Split", format!("{acl}; equal parts by output count (opset 13)"), vec![Some(data.clone())]).opset(13).outs(n)));
-                        out.push(with_axis(Case::new("Split", format!("{acl}; equal parts by output count (opset 11)"), vec![Some(data.clone())]).opset(11).outs(n)));
+                        out.push(with_axis(Case::new("Split", format!("equal parts by output count (opset 13)"), vec![Some(data.clone())]).opset(13).outs(n)));
+                        out.push(with_axis(Case::new("Split", format!("equal parts by output count (opset 11)"), vec![Some(data.clone())]).opset(11).outs(n)));
                     }
                     // num_outputs (opset 18): even and uneven
-                    out.push(with_axis(Case::new("Split", format!("{acl}; num_outputs {}", if dim % n == 0 { "even" } else { "uneven" }), vec![Some(data.clone())]).opset(18).outs(n).attr_i("num_outputs", n as i64)));
+                    {
+                        let chunk = dim.div_ceil(n);
+                        let empty_last = chunk * (n - 1) >= dim && n > 1;
+                        let c = Case::new("Split", format!("num_outputs {}", if dim % n == 0 { "even" } else if empty_last { "uneven with empty last part" } else { "uneven" }), vec![Some(data.clone())]).opset(18).outs(n).attr_i("num_outputs", n as i64);
+                        // an empty last chunk is an edge the specification text does not spell out
+                        out.push(with_axis(if empty_last && dim % n != 0 { c.lenient() } else { c }));
+                    }
                 }
                 if dim + 1 <= 4 {
                     let n = dim + 1;
-                    out.push(with_axis(Case::new("Split", format!("{acl}; num_outputs larger than the axis"), vec![Some(data.clone())]).opset(18).outs(n).attr_i("num_outputs", n as i64)));
+                    out.push(with_axis(Case::new("Split", "num_outputs larger than the axis", vec![Some(data.clone())]).opset(18).outs(n).attr_i("num_outputs", n as i64).lenient()));
                 }
                 // explicit sizes: all compositions of dim into 1..=3 parts (zeros allowed)
                 let mut comps: Vec<Vec<i64>> = vec![vec![dim as i64]];
@@ -615,10 +591,10 @@ fn split(tier: Tier) -> Vec<Case> {
                 }
                 for comp in comps {
                     let z = if comp.contains(&0) { "; zero-size part" } else { "" };
-                    out.push(with_axis(Case::new("Split", format!("{acl}; split sizes input (opset 18){z}"), vec![Some(data.clone()), Some(i64s(&comp))]).opset(18).outs(comp.len())));
+                    out.push(with_axis(Case::new("Split", format!("split sizes input (opset 18){z}"), vec![Some(data.clone()), Some(i64s(&comp))]).opset(18).outs(comp.len())));
                     if dt == Dt::F32 {
-                        out.push(with_axis(Case::new("Split", format!("{acl}; split sizes input (opset 13){z}"), vec![Some(data.clone()), Some(i64s(&comp))]).opset(13).outs(comp.len())));
-                        out.push(with_axis(Case::new("Split", format!("{acl}; split sizes attribute (opset 11){z}"), vec![Some(data.clone())]).opset(11).outs(comp.len()).attr_is("split", &comp)));
+                        out.push(with_axis(Case::new("Split", format!("split sizes input (opset 13){z}"), vec![Some(data.clone()), Some(i64s(&comp))]).opset(13).outs(comp.len())));
+                        out.push(with_axis(Case::new("Split", format!("split sizes attribute (opset 11){z}"), vec![Some(data.clone())]).opset(11).outs(comp.len()).attr_is("split", &comp)));
                     }
                 }
             }
